@@ -18,14 +18,14 @@ SPEC = {
     'closure_dirs': ['theories/C02', 'theories/C14/Corr.v'] + [w for w in WIRE if os.path.exists(os.path.join(vlib.COQ, w))],
     'harness': 'c02',
     'args': {
-        'quick': ['-docs', 2, '-heads', 1, '-rand', 1500, '-prefix', 3, '-model', 1500],
-        'thorough': ['-docs', 12, '-heads', 3, '-rand', 20000, '-prefix', 12, '-model', 12000],
+        'quick': ['-docs', 2, '-heads', 1, '-rand', 1500, '-prefix', 3, '-model', 1500, '-long', 1, '-big', 1],
+        'thorough': ['-docs', 12, '-heads', 3, '-rand', 20000, '-prefix', 12, '-model', 12000, '-long', 4, '-big', 4],
     },
-    'search_args': ['-docs', 6, '-heads', 2, '-rand', 6000, '-prefix', 6, '-model', 3000],
+    'search_args': ['-docs', 6, '-heads', 2, '-rand', 6000, '-prefix', 6, '-model', 3000, '-long', 2, '-big', 2],
     'known_aliases': ['Wcbor', 'Wmsgpack', 'Wsimple', 'Wbinc', 'Wjson'],
     'eval_timeout': {'quick': 600, 'thorough': 2400},
     'assumptions': [
-        'time and memory are MODEL counts in the theorems (fuel of the wire models, steps of the walker skeleton C02/Steps.v, allocation requests of the run model C02/Alloc.v whose premises wf are the decoder invariants proved elsewhere (progress: W*_progress, depth: C14) or read off kSlice/kMap (pre-sizing by decInferLen, growth by append) and are NOT derived from the wire models inside Coq); the harness measures the real ones (/gc/heap/allocs:bytes delta, wall clock) against K0 + K1*len and K2 + K3*len with generous constants: K0 = 70 MB + levels*max(1024,MaxInitLen)*2*unit (+ reader buffer), K1 = 1024 + 8*unit, K2 = 0.4 s, K3 = 50 us/byte; unit = largest element size of the destination type (48 for interface{} containers), levels = MaxDepth for interface{}/Raw/recursive types else the static container depth',
+        'time and memory are MODEL counts in the theorems (fuel of the wire models, steps of the walker skeleton C02/Steps.v, allocation requests of the run model C02/Alloc.v whose premises wf are the decoder invariants proved elsewhere (progress: W*_progress, depth: C14) or read off kSlice/kMap (pre-sizing by decInferLen, growth by append) and are NOT derived from the wire models inside Coq); the harness measures the real ones (/gc/heap/allocs:bytes delta, wall clock) against K0 + K1*len and K2 + K3*len with generous constants: K0 = 70 MB + levels*max(1024,MaxInitLen)*2*unit (+ reader buffer), K1 = 1024 + 8*unit (16 for a destination without containers: string, []byte, numbers), K2 = 0.4 s, K3 = 5 us/byte; MaxInitLen ranges over {MinInt, -1, 0, 1, 16, 1200, 4096, 70000}; destinations include zero-size element types (map[struct{}]struct{}, []struct{}, [][0]int); unit = largest element size of the destination type (48 for interface{} containers), levels = MaxDepth for interface{}/Raw/recursive types else the static container depth',
         'the 64 MB in K0 is usableByteSlice: an array head claiming n elements decoded as bytes (into []byte or string destinations, map keys, struct field names) allocates min(n, 64 MB) before the first element is read; every other claimed length is capped by decInferLen at max(1024, MaxInitLen) elements',
         'workers run with RLIMIT_AS = 6 GB and debug.SetMaxStack(64 MB); a fatal exit or a stall beyond 20 s + 0.2 ms per input byte is attributed to the input being decoded',
         'the wire models cover Decode(&interface{}) and Decode(&Raw) from []byte for cbor, msgpack, simple, binc (outcome class + NumBytesRead compared as Coq cases); typed destinations, io.Reader transports, the other option flags and json are covered by the oracle only',
@@ -44,5 +44,5 @@ MANIFEST = {
     'category': 'proof',
     'technique': 'Coq: per format, decoding any byte list with fuel linear in its length never runs out of fuel (assembled by exact from the wire-layer totality lemmas), every exceptional outcome is an Err class the Decode boundary recovers, step and allocation-request counts of instrumented models are linear in the input length with the caps of decInferLen / usableByteSlice / MaxInitLen (containerLenNil from Gen/Consts.v; decInferLen / usableByteSlice transcribed by hand and tied by a leaf correspondence stream); vm_compute correspondence of outcome class and NumBytesRead on hostile inputs; API-level oracle in subprocess workers (address-space limit, stack cap, watchdog) over format x destination x options x transport with hostile lengths in every length position, truncations, byte flips, random bytes and all 65792 one- and two-byte inputs',
     'text': 'PARTIAL. Proved on the models (every byte list, option vector): C02_*_terminates (fuel K*(len+1) suffices, never OutOfFuel) for cbor, msgpack, simple, binc on the interface{} path and the skip/Raw walker; C02_only_recoverable; C02_alloc (allocation requests of every run tree satisfying the decoder invariants <= MaxDepth*max(1024,MaxInitLen)*U + (KL+64+13U)*len, whatever lengths are claimed); C02_walker_steps_partial (a step-counting skeleton of the recursive walkers takes <= 4*len+2 steps for EVERY progressing head parser; not instantiated per format: there is no per-format C02_F_steps, the wire models expose fuel, not steps); C02_json_skip_terminates_partial (json: skip scanner only). The model decides termination, step and allocation-request COUNTS; real time, GC, resident memory, the panic->error recover and memory safety of unsafe are runtime and are only observed by the harness. Typed destinations, io.Reader and json: harness oracle only.',
-    'note': 'K0 is large by design of the code (64 MB usableByteSlice cap; MaxDepth * 1024 elements pre-sized per open container): the allocation oracle flags only gross violations (an uncapped claimed length). Trusted: Coq kernel, hand-written models, translator for decInferLen, harness and its constants.',
+    'note': 'Findings made by this check and repaired in /repo: F02-2 (negative MaxInitLen lifted every cap of the io transport), F02-3 (decInferLen did not cap zero-size element types: map buckets sized by the claimed length); F10-1 (cbor tag 4/5 head compared with 82 decimal) surfaced as a correspondence mismatch here and was repaired by the cbor wire check. K0 is large by design of the code (64 MB usableByteSlice cap; MaxDepth * 1024 elements pre-sized per open container): the allocation oracle flags only gross violations (an uncapped claimed length). Trusted: Coq kernel, hand-written models, translator for decInferLen, harness and its constants.',
 }
